@@ -191,25 +191,33 @@ def run(ctx):
 
     def vr_known_class(job):
         """which listed finding, if any, the moves of this job fall under.
-        F12: stage switches are decided at chunk starts, which restart with every request - a SLEW across an octave boundary, or an
-             immediate upward move over two or more octaves (the second switch waits for the first cross-fade and then for a chunk start);
+        F12: stage switches are decided at chunk starts, which restart with every request - a SLEW across an octave boundary, an
+             immediate upward move over two or more octaves, or a switch asked for within 1100 output frames of the previous one (the
+             later switch waits for the running cross-fade and then for a chunk start);
         F42: a stage switch, up or down, that involves stage 2 or above (a ratio beyond 4 on either side): the coarser half-band stages are
              restarted / trimmed and their fast/full cross-fade started from whatever input is buffered at that moment.
         The ratio at the start of a move is the previous target or, if the previous slew had not finished, anywhere on its path."""
         lo = hi = float(job["cfg"]["ir"])
         mv = job["moves"]
         found = set()
+        last_sw = None
         for i, (at, r, slew) in enumerate(mv):
             span = (mv[i + 1][0] if i + 1 < len(mv) else at + job["tail"]) - at
             a, b = min(lo, r), max(hi, r)
             if slew:
                 if min(vr_stage(a)) != max(vr_stage(b)):
-                    found.add("F12")
+                    found.add("F12"); last_sw = at + slew
                 lo, hi = (r, r) if span >= slew else (a, b)
                 continue
             so, sn = vr_stage(lo) | vr_stage(hi), vr_stage(r)
             if r > lo and max(sn) - min(so) >= 2:
                 found.add("F12")
+            if so != sn or len(sn) > 1:
+                # a switch asked for while the cross-fade of the previous one (512 output frames) may still run waits for it and is
+                # then taken at a chunk start: F12's mechanism again
+                if last_sw is not None and at - last_sw < 1100:
+                    found.add("F12")
+                last_sw = at
             if (so != sn or len(sn) > 1) and max(so | sn) >= 2:
                 found.add("F42")
             lo = hi = r
